@@ -4,6 +4,7 @@ variables / parameters inside one function, statement-neutral rewrites) to a scr
 listed property check still exits 0 - neither VIOLATION nor "cannot decide".
 
 edit kinds:  {"file":..., "old":..., "new":...}                      exact, unique text replacement
+             {"file":..., "old":..., "new":..., "count": n}          the same, for text that occurs exactly n times
              {"file":..., "in_fn": "fn name", "rename": {"a": "b"}}  whole-word rename inside the body of that function
 usage: benign.py [--only name,...]"""
 import glob
@@ -62,13 +63,14 @@ def main():
                         body = re.sub(r'(?<![.\w])' + re.escape(old) + r'\b', sub, body)
                     s = s[:a] + body + s[b:]
                 else:
-                    if s.count(e['old']) != 1:
+                    if s.count(e['old']) != e.get('count', 1):
                         print(f"BENIGN-ERROR {m['name']}: pattern occurs {s.count(e['old'])} times")
                         fails += 1
                         continue
                     s = s.replace(e['old'], e['new'])
                 open(p, 'w').write(s)
-        props = sorted({p for m in items for p in m.get('props', [])}) or [f'C{i:02d}' for i in range(1, 21)]
+        allp = [f'C{i:02d}' for i in range(1, 21)]
+        props = allp if any(not m.get('props') for m in items) else sorted({p for m in items for p in m['props']})
         for p in props:
             env = dict(os.environ, VERIF_REPO=tmp, VERIF_EVIDENCE_DIR=evd, VERIF_CACHE_KEEP='6')
             r = subprocess.run([os.path.join(VERIF, 'check'), p], env=env, stdout=subprocess.PIPE, stderr=subprocess.STDOUT, text=True)
